@@ -189,6 +189,26 @@ func (c *Ctx) Uncomparable() *Ctx {
 	return c
 }
 
+// ownErrCtx is a caller's own Context implementation that explains its end with an error value of
+// its own (one that wraps context.Canceled) instead of one of the two standard values.
+type ownErrCtx struct {
+	context.Context
+	err error
+}
+
+func (c *ownErrCtx) Err() error {
+	if c.Context.Err() == nil {
+		return nil
+	}
+	return c.err
+}
+
+// OwnErr wraps c's context in such an implementation (c keeps being cancellable as before).
+func (c *Ctx) OwnErr() *Ctx {
+	c.C = &ownErrCtx{Context: c.C, err: fmt.Errorf("%s gave up: %w", c.Name, context.Canceled)}
+	return c
+}
+
 // ExpiredAt returns the simulated time (ns) at which the context expired (own or inherited
 // cancellation, whichever came first) and whether it has expired at all.
 func (c *Ctx) ExpiredAt() (int64, bool) {
